@@ -2146,7 +2146,7 @@ def listify(entry, names):
 #              else:
 #                  new[key] = [ value ]
                 new[key] = value.split("\n")
-                if value[-1] == "\n":
+                if value[-1:] == "\n":
                     new[key].pop()
             elif isinstance(value, list):
                 new[key] = ["" if v is None else v for v in value]
